@@ -229,12 +229,14 @@ func (ctl *Control) Replaced(newCtl *Control) {
 	ctl.conn.Close()
 }
 
-func (ctl *Control) RegisterWorkConn(conn net.Conn) error {
+func (ctl *Control) RegisterWorkConn(conn net.Conn) (retErr error) {
 	xl := ctl.xl
 	defer func() {
 		if err := recover(); err != nil {
 			xl.Errorf("panic error: %v", err)
 			xl.Errorf(string(debug.Stack()))
+			// the pool is already closed (control is exiting), let the caller close the connection
+			retErr = fmt.Errorf("control is closed, discarding work connection")
 		}
 	}()
 
